@@ -61,7 +61,8 @@ def node_opts(explicit_ids: bool = True, kinds: bool = False, meta: bool = False
     fields = {}
     if explicit_ids:
         # 0 is a legal (falsy) explicit id
-        fields["id"] = st.one_of(st.sampled_from(["X1", "X2", "X3"]), st.integers(1000, 1003), st.sampled_from([0, 1000, "X1"]))
+        # 0 is a legal (falsy) explicit id; "007" / "42" are strings that look like numbers (42 is also used as int)
+        fields["id"] = st.one_of(st.sampled_from(["X1", "X2", "X3", "007", "42"]), st.integers(1000, 1003), st.sampled_from([0, 1000, "X1", 42]))
     if kinds:
         fields["kind"] = st.sampled_from(KINDS)
     if meta:
